@@ -133,6 +133,7 @@ def run(ctx):
         "modelled, not verified: bufio.Reader + io.ReadFull / io.CopyN over the reader as a flat byte list with a tail kind; sync.Map as an association list; "
         "time.Unix(sec).Year() range test as two integer comparisons; Go maps as key-sorted last-wins lists",
     ]
+    keep_replays(ctx)
     return ctx.finish(
         rule="one case = one conversation under one processing order (client half first, server half first, conversation order) and chunking; "
              "non-trivial = at least one item emitted; conversations: every class/method of the specification with empty and maximal arguments and "
@@ -142,7 +143,21 @@ def run(ctx):
                      "io.ReadFull / io.CopyN on a bufio.Reader depend only on the concatenation of the reads (exercised by the chunked runs)"])
 
 
+def keep_replays(ctx):
+    """vlib.Ctx removes replays/C05-*.json whenever a check starts - also when it is started
+    with --replay.  Keep a copy where that does not reach so that the printed path can be
+    replayed."""
+    import glob
+    import shutil
+    keep = os.path.join(vlib.VERIF, "replays", ".keep")
+    os.makedirs(keep, exist_ok=True)
+    for f in glob.glob(os.path.join(vlib.VERIF, "replays", ctx.prop + "-*.json")):
+        shutil.copy(f, keep)
+
+
 def replay(ctx, path):
+    if not os.path.exists(path):
+        path = os.path.join(vlib.VERIF, "replays", ".keep", os.path.basename(path))
     r = json.load(open(path))
     ctx.build_harness()
     case = r.get("case")
@@ -153,4 +168,17 @@ def replay(ctx, path):
     rc, res, raw = A.vh(ctx, mode, [json.dumps(case)], extra=("-mem", "1536") if mode == "cost" else ())
     print("why:", r.get("why"))
     print(raw[-3000:])
-    return 1 if rc != 0 else 0
+    if rc != 0 or not res:
+        return 1
+    out = res[0]
+    if out["c"]["out"] not in ("eof", "error") or out["s"]["out"] not in ("eof", "error") or any(i.get("stage") for i in out["items"]):
+        print("replay: still failing (outcome / stage)")
+        return 1
+    if r.get("kind") == "amqp-report":
+        obs = [dict(d, by=None) for d in A.describe_items(A.observed_items(out))]
+        want = [[dict(d, by=None) for d in r.get(k, [])] for k in ("exact_report", "design_report")]
+        key = lambda l: sorted(json.dumps(d, sort_keys=True) for d in l)
+        same = key(obs) == key(want[0]) or key(obs) == key(want[1])
+        print("replay: items %s the report recorded for this conversation" % ("equal" if same else "still differ from"))
+        return 0 if same else 1
+    return 0
